@@ -70,9 +70,12 @@ def eigvalsh(M, _routine="eigvalsh"):
     _note_symmetry(M, _routine)
     n = M.shape[0]
     if _is_diag(M):
+        # principal-axes world: the eigenvalues are the diagonal entries; numpy returns them in ascending order, which for generic symbols is
+        # one of the n! orders -- WORLD["eig_order"] picks it (eigh returns the eigenbases in the same order)
+        order = WORLD.get("eig_order") or tuple(range(n))
         out = np.empty(n, dtype=object)
         for i in range(n):
-            out[i] = P(M[i, i])
+            out[i] = P(M[order[i], order[i]])
         return out
     args = [M[i, j] for i in range(n) for j in range(i, n)]
     out = np.empty(n, dtype=object)
@@ -84,10 +87,17 @@ def eigvalsh(M, _routine="eigvalsh"):
 def eigh(M):
     M = npmodel.to_obj(np.asarray(M))
     n = M.shape[0]
+    M = _strip_regularisation(M)
     w = eigvalsh(M, _routine="eigh")
     args = [M[i, j] for i in range(n) for j in range(i, n)]
     # tensortrax returns eigenvalues and the eigen-bases M_a = N_a (x) N_a stacked on the first axis
     Mb = np.empty((n, n, n), dtype=object)
+    if _is_diag(M):
+        order = WORLD.get("eig_order") or tuple(range(n))
+        Mb[...] = ZERO
+        for a in range(n):
+            Mb[a, order[a], order[a]] = ONE
+        return w, Mb
     for a in range(n):
         for i in range(n):
             for j in range(n):
